@@ -1688,6 +1688,23 @@ class StateEngine(object):
                         retries = context["State"].get("RetryCount", 0)
                         if retries < max_attempts:
                             timeout = interval_seconds * (backoff_rate ** retries)
+                            """
+                            The execution time-out applies while the state is
+                            waiting to be retried too. If it comes before the
+                            retry interval is over enter the state then: it
+                            finds no time left and fails the execution with
+                            States.Timeout when that is due, rather than when
+                            the retry interval eventually ends.
+                            """
+                            try:
+                                deadline = parse_rfc3339_datetime(
+                                    context["Execution"]["StartTime"]
+                                ).timestamp() + ASL.get(
+                                    "TimeoutSeconds", self.execution_ttl
+                                )
+                                timeout = max(min(timeout, deadline - time.time()), 0)
+                            except (KeyError, TypeError, ValueError):
+                                pass  # No usable StartTime/TimeoutSeconds
                             retries += 1
                             context["State"]["RetryCount"] = retries
                             context["State"]["RetryTimeout"] = timeout * 1000
